@@ -214,3 +214,97 @@ func ZZ_C09_LoadVsWrite() {
 		vAssert(final != written, "c09.canary")
 	}
 }
+
+func init() { vRegister("ZZ_C08_Mixed", ZZ_C08_Mixed) }
+
+// ZZ_C08_Mixed: a single Get of key 1 racing with a BulkGet of keys {1,2} (and optionally a second BulkGet of {2,1}):
+// per key the loader invocations never overlap, every caller returns, bulk outcomes full / partial / error / panic
+// release every waiter and leave no in-flight record behind.
+func ZZ_C08_Mixed() {
+	bout := vChoice("bulk", 4) // 0 full, 1 partial (key 1 missing), 2 error, 3 panic
+	bnames := []string{"full", "partial", "error", "panic"}
+	vScenario("bulk=" + bnames[bout])
+	c := Must(&Options[int, int]{Logger: &NoopLogger{}})
+	clk := &zzTick{}
+	var iv [3][]zzIval // per key
+	enter := func(k int) int {
+		t := clk.now()
+		idx := 0
+		vAtomic(func() { iv[k] = append(iv[k], zzIval{in: t}); idx = len(iv[k]) - 1 })
+		return idx
+	}
+	leave := func(k, idx int) {
+		t := clk.now()
+		vAtomic(func() { iv[k][idx].out = t })
+	}
+	single := LoaderFunc[int, int](func(ctx context.Context, key int) (int, error) {
+		i := enter(key)
+		vYield()
+		leave(key, i)
+		return 1000 + key, nil
+	})
+	bulk := BulkLoaderFunc[int, int](func(ctx context.Context, keys []int) (map[int]int, error) {
+		idx := make([]int, len(keys))
+		for j, k := range keys {
+			idx[j] = enter(k)
+		}
+		vYield()
+		for j, k := range keys {
+			leave(k, idx[j])
+		}
+		if bout == 3 {
+			panic("zz bulk boom")
+		}
+		res := map[int]int{}
+		for _, k := range keys {
+			if !(bout == 1 && k == 1) {
+				res[k] = 2000 + k
+			}
+		}
+		if bout == 2 {
+			return res, zzErrLoad
+		}
+		return res, nil
+	})
+	var gv int
+	var gerr error
+	var bres map[int]int
+	var berr error
+	var gp, bp, gd, bd bool
+	vPar(func() {
+		gp = vExpectPanic(func() { gv, gerr = c.Get(context.Background(), 1, single) })
+		gd = true
+	}, func() {
+		bp = vExpectPanic(func() { bres, berr = c.BulkGet(context.Background(), []int{1, 2}, bulk) })
+		bd = true
+	})
+	vAssert(gd && bd, "c08m.every_caller_returns")
+	for k := 1; k <= 2; k++ {
+		for i := 0; i < len(iv[k]); i++ {
+			for j := i + 1; j < len(iv[k]); j++ {
+				vAssert(iv[k][i].out < iv[k][j].in || iv[k][j].out < iv[k][i].in, "c08m.loader_invocations_for_a_key_do_not_overlap")
+			}
+		}
+	}
+	if !gp {
+		// the single caller gets a value that some load produced for key 1, or the bulk load's failure it joined
+		if gerr == nil {
+			vAssert(gv == 1001 || gv == 2001, "c08m.single_caller_gets_a_loaded_value")
+		}
+	}
+	if !bp && berr == nil {
+		if v, ok := bres[2]; ok {
+			vAssert(v == 2002, "c08m.bulk_result_value")
+		}
+		if v, ok := bres[1]; ok {
+			vAssert(v == 1001 || v == 2001, "c08m.bulk_gets_inflight_or_own_value")
+		}
+	}
+	if bout == 3 {
+		vAssert(bp || len(iv[2]) == 0, "c08m.bulk_panic_surfaces_in_the_bulk_caller")
+	}
+	vAssert(c.cache.singleflight.getCall(1) == nil && c.cache.singleflight.getCall(2) == nil, "c08m.no_inflight_record_left")
+	// later Gets terminate and load afresh where nothing was cached
+	v2, err2 := c.Get(context.Background(), 2, single)
+	vAssert(err2 == nil && (v2 == 1002 || v2 == 2002), "c08m.later_get_terminates")
+}
